@@ -98,6 +98,9 @@ def check(ctx):
             illegal.append((f"*, {nm}", base + [(nm, "KEYWORD_ONLY")]))
         for pos in range(1, len(base) + 1):
             illegal.append((f"foreign name at {pos}", base[:pos] + [("speed", POS)] + base[pos:]))
+        # names that are fragments / near misses of the allowed ones (a check by substring or prefix would accept them)
+        for nm in ("state", "t", "m", "initial", "call", "_tm", "state_t", "elf", "Tm", "tm_"):
+            illegal.append((f"foreign name '{nm}'", base + [(nm, POS)]))
         illegal.append(("first parameter not self", [("this", POS)] + base[1:]))
         if sig:
             illegal.append(("no self", base[1:]))
